@@ -34,10 +34,7 @@ Definition decorated (c : cls) : bool := match c_dec c with Some _ => true | Non
 Definition mro_classes (t : table) (c : cls) : list cls :=
   flat_map (fun j => match nth_error t j with Some b => [b] | None => [] end) (c_mro c).
 Definition is_field_ann (a : ann) : bool := match a with APlain | AInitVar => true | _ => false end.
-Definition fa_empty (a : fargs) : bool :=
-  match fa_init a, fa_kw a with
-  | None, None => negb (fa_default a || fa_factory a || fa_other a)
-  | _, _ => false end.
+Definition init_false (b : cls) : bool := match c_dec b with Some d => opt_is (d_init d) false | None => false end.
 
 (* ---- Python dict semantics: d[key(x)] = x keeps the position of an existing key, appends a new one ---- *)
 Section Dict.
@@ -60,15 +57,16 @@ Arguments upd {A} key m x. Arguments merge {A} key m l. Arguments dedup {A} key 
 Definition g_body (c : cls) : list stmt :=
   c_body c ++ match c_hw c with Some l => map (fun n => SAttr n APlain VPlain) l | None => [] end.
 
-(* parameter default: "default_factory" in args -> call; else args.get("default", None if args else member.value) *)
+(* parameter default: "default_factory" in args -> call; else args.get("default", None if is_field else member.value) *)
 Definition g_default (v : value) : bool :=
   match v with
   | VNone => false
   | VPlain => true
-  | VField a => fa_factory a || fa_default a || fa_empty a
+  | VField a => fa_factory a || fa_default a
   end.
 Definition g_init_false (v : value) : bool := match v with VField a => opt_is (fa_init a) false | _ => false end.
 Definition g_kw_true (v : value) : bool := match v with VField a => opt_is (fa_kw a) true | _ => false end.
+Definition g_kw_false (v : value) : bool := match v with VField a => opt_is (fa_kw a) false | _ => false end.
 
 (* the loop of _dataclass_parameters over class_.members *)
 Fixpoint g_scan (kw : bool) (body : list stmt) : list param :=
@@ -82,14 +80,14 @@ Fixpoint g_scan (kw : bool) (body : list stmt) : list param :=
       | AClassVar => g_scan kw r                      (* class-attribute and not instance-attribute *)
       | AKwOnly => g_scan true r
       | _ => if g_init_false v then g_scan kw r
-             else mkp n (if kw || g_kw_true v then KO else PK) (g_default v) :: g_scan kw r
+             else mkp n (if g_kw_true v || (kw && negb (g_kw_false v)) then KO else PK) (g_default v) :: g_scan kw r
       end
   end.
 
 Definition g_class_params (c : cls) : list param :=
   match c_dec c with
   | None => []
-  | Some d => if opt_is (d_init d) false then [] else g_scan (opt_is (d_kw d) true) (g_body c)
+  | Some d => g_scan (opt_is (d_kw d) true) (g_body c)
   end.
 
 (* _set_dataclass_init: parents in reversed MRO that carry the decorator, then the class itself *)
@@ -105,13 +103,11 @@ Definition g_reorder (l : list param) : list param :=
 Definition g_init_member (t : table) (c : cls) : init_member :=
   match c_hw c with
   | Some _ => Handwritten
-  | None => if decorated c then Synth (g_reorder (g_collect t c)) else Absent
+  | None => if decorated c then (if init_false c then Absent else Synth (g_reorder (g_collect t c))) else Absent
   end.
 
-(* "dataclass" in labels: from the decorator (visitor), or added by _set_dataclass_init when a parent is decorated;
-   _set_dataclass_init only runs when the class has no __init__ member *)
-Definition g_label (t : table) (c : cls) : bool :=
-  decorated c || match c_hw c with Some _ => false | None => existsb decorated (mro_classes t c) end.
+(* "dataclass" in labels: from the decorator (visitor), or added by _set_dataclass_label when a parent is decorated *)
+Definition g_label (t : table) (c : cls) : bool := decorated c || existsb decorated (mro_classes t c).
 
 (* ================= CPython ================= *)
 
@@ -232,7 +228,8 @@ Definition py_init_member (e : env) (i : nat) (c : cls) : init_member :=
 (* dataclasses.is_dataclass(cls): hasattr(cls, "__dataclass_fields__") *)
 Definition py_is_dataclass (t : table) (c : cls) : bool := decorated c || existsb decorated (mro_classes t c).
 
-(* ================= known gaps (findings C18-F1 .. F8, F10): decidable predicates ================= *)
+(* ================= known gaps (findings C18-F2, F3, F4, F6, F7): decidable predicates =================
+   (F1, F5, F8, F9 were repaired in the code; their predicates are gone) *)
 
 (* the decorated classes whose fields feed c's __init__: reversed MRO, then c *)
 Definition chain (t : table) (c : cls) : list cls := filter decorated (rev (mro_classes t c) ++ [c]).
@@ -240,10 +237,6 @@ Definition chain (t : table) (c : cls) : list cls := filter decorated (rev (mro_
 Definition own_or_nil (t : table) (b : cls) : list fld := match py_own t b with Some l => l | None => [] end.
 (* flat collection: every decorated class contributes its own fields once *)
 Definition flat_fields (t : table) (c : cls) : list fld := dedup f_name (flat_map (own_or_nil t) (chain t c)).
-
-(* F1: some dataclass of the chain passes init=False *)
-Definition init_false (b : cls) : bool := match c_dec b with Some d => opt_is (d_init d) false | None => false end.
-Definition G1 (t : table) (c : cls) : bool := existsb init_false (chain t c).
 
 (* F2: an annotation-only field whose name is bound as a class attribute in an ancestor (CPython takes it as default) *)
 Fixpoint g2_scan (inhf : name -> bool) (body : list stmt) : bool :=
@@ -263,18 +256,6 @@ Definition G3 (t : table) (c : cls) : bool := negb (consistent f_name in_init (f
 (* F4: a decorated ancestor has a hand-written __init__ that assigns annotated instance attributes *)
 Definition hw_assigns (b : cls) : bool := match c_hw b with Some (_ :: _) => true | _ => false end.
 Definition G4 (t : table) (c : cls) : bool := existsb hw_assigns (chain t c).
-
-(* F5: field(kw_only=False) under @dataclass(kw_only=True) or after the KW_ONLY sentinel *)
-Fixpoint g5_scan (kw : bool) (body : list stmt) : bool :=
-  match body with
-  | [] => false
-  | SAttr _ AKwOnly _ :: r => g5_scan true r
-  | SAttr _ a (VField fa) :: r =>
-      (is_field_ann a && kw && opt_is (fa_kw fa) false && negb (opt_is (fa_init fa) false)) || g5_scan kw r
-  | _ :: r => g5_scan kw r
-  end.
-Definition dec_kw (b : cls) : bool := match c_dec b with Some d => opt_is (d_kw d) true | None => false end.
-Definition G5 (t : table) (c : cls) : bool := existsb (fun b => g5_scan (dec_kw b) (c_body b)) (chain t c).
 
 (* F6: CPython's accumulated __dataclass_fields__ (every base contributes its whole inherited dict again) differs
    from the flat collection: only possible with multiple inheritance *)
@@ -298,22 +279,9 @@ Definition G6 (t : table) (e : env) (i : nat) (c : cls) : bool :=
 Definition g7_scan (body : list stmt) : bool := existsb (fun s => match s with SAnnProp _ => true | _ => false end) body.
 Definition G7 (t : table) (c : cls) : bool := existsb (fun b => g7_scan (c_body b)) (chain t c).
 
-(* F8: field() without arguments *)
-Fixpoint g8_scan (body : list stmt) : bool :=
-  match body with
-  | [] => false
-  | SAttr _ a (VField fa) :: r => (is_field_ann a && fa_empty fa) || g8_scan r
-  | _ :: r => g8_scan r
-  end.
-Definition G8 (t : table) (c : cls) : bool := existsb (fun b => g8_scan (c_body b)) (chain t c).
-
 Definition gaps (t : table) (e : env) (i : nat) (c : cls) : list bool :=
-  [G1 t c; G2 t c; G3 t c; G4 t c; G5 t c; G6 t e i c; G7 t c; G8 t c].
+  [G2 t c; G3 t c; G4 t c; G6 t e i c; G7 t c].
 Definition known_gap (t : table) (e : env) (i : nat) (c : cls) : bool := existsb (fun b => b) (gaps t e i c).
-
-(* F10 (label): a class with a hand-written __init__ that inherits a dataclass without being decorated itself *)
-Definition G10 (t : table) (c : cls) : bool :=
-  negb (decorated c) && match c_hw c with Some _ => true | None => false end && existsb decorated (mro_classes t c).
 
 (* single inheritance: the MRO of every class is its base followed by the base's MRO *)
 Definition linear_at (t : table) (i : nat) (c : cls) : bool :=
@@ -374,8 +342,7 @@ Fixpoint enc_classes (t : table) (oe : option env) (i : nat) (l : list cls) : li
       SList [enc_member (g_init_member t c);
              match oe with Some e => enc_member (py_init_member e i c) | None => SList [SStr "rejected"] end;
              of_bool (g_label t c); of_bool (py_is_dataclass t c);
-             SList (map of_bool (match oe with Some e => gaps t e i c | None => [] end));
-             of_bool (G10 t c)]
+             SList (map of_bool (match oe with Some e => gaps t e i c | None => [] end))]
       :: enc_classes t oe (S i) r
   end.
 
